@@ -91,6 +91,35 @@ CHECKS.update({
                      "extended framing, payload sizes 0..64 KiB, 4 MiB in thorough, repetition runs) are played against the real "
                      "node; after every message a ping must be answered with its nonce.",
                 technique="TLA+ model checking (TLC) + spec-generated sessions replayed on the real node", note=SESS_NOTE),
+    "C03": dict(level="model_checking", engine="split+session", ref="3 C03",
+                text="AtSplitOnlyBSV / ForeignAlwaysRefused / BSVAccepted checked by TLC on SplitGuard.tla (every order of offers "
+                     "around the split height: real chain, BSV and BCH split headers, other headers at the split height on the "
+                     "main chain and on forks created below it, unknown parents); those offer sequences are replayed on a mainnet "
+                     "headers.Repository built on the real fixture chain with split protection on (and, sampled, with the "
+                     "difficulty check on). Peer side: OnlyBSVVerifies / ReadyNeedsHandshakeAndBSV on PeerSession.tla and every "
+                     "class of reply to the verification request, at every handshake position, for full and verify-only nodes, "
+                     "played against a real BitcoinNode.",
+                technique="TLA+ model checking (TLC) + spec-generated offer sequences and sessions replayed on the real code",
+                note="Trusted: TLC; the fixture headers of the repository. The BTC split header's 80 bytes are not available "
+                     "offline: its table entry is compared with the spec's constants and it shares the code path of the BCH entry."),
+    "C15": dict(level="exploration", engine="hostile", ref="3 C15",
+                text="Byte-level universality cannot be model checked; the spec (PeerSession.tla) contributes the phase x message "
+                     "class structure and the oracle: after any input a session is in sync or closed, there is no crash action. "
+                     "Hostile inputs from 22 mutation operators are delivered before the handshake, during verification and when "
+                     "ready (with / without tx manager, verify-only, block request outstanding) to a real BitcoinNode in "
+                     "isolated, address-space-limited worker processes; a dead worker, a Run that does not return after the "
+                     "connection closes, or a broken second connection is a violation.",
+                technique="seeded mutation exploration in isolated workers with a TLA+ envelope as oracle",
+                note="Sampled, not exhaustive. Workers run with a 3 GiB address-space limit so that allocations sized by hostile "
+                     "counts abort them. Known finding F-C15-1 (allocations inside the wire dependency) is reported, not judged."),
+    "C18": dict(level="model_checking", engine="headers", ref="3 C18",
+                text="ValidVerifies / CorruptFails checked by TLC on MerkleProofs.tla (merkle trees as terms: every shape, "
+                     "position and single-element corruption, recording whether the corrupted proof still recomputes the root); "
+                     "every case is instantiated as a real MerkleProof (built by the harness's own tree code) for a header on the "
+                     "best chain, on a side branch, in pruned history or unknown, with header or hash only, and handed to "
+                     "VerifyMerkleProof; in addition proofs into every pool block are verified after every operation of "
+                     "TLC-generated repository behaviours (height and best-chain flag judged against the reported chain).",
+                technique="TLA+ model checking (TLC) + exhaustive case replay + spec-to-code behaviour replay"),
     "C16": dict(level="model_checking", engine="blockdownload", ref="3 C16",
                 text="NoSendBlocked, CompleteOnlyAfterOk and the temporal property Triggered ~> Run returned (weak fairness, no "
                      "timeouts) checked by TLC on BlockDownload.tla over every interleaving of Run, the node's handleBlock, "
@@ -151,7 +180,7 @@ def main():
         },
         "engines": [
             {"name": "headers", "path": "lib/engine_headers.py",
-             "serves_properties": ["C01", "C07", "C08", "C09", "C10", "C11", "C12", "C17", "C19"],
+             "serves_properties": ["C01", "C07", "C08", "C09", "C10", "C11", "C12", "C17", "C18", "C19"],
              "kind_free_text": "specs/HeaderChain.tla (exhaustive TLC), specs/HeaderChainGen.tla (behaviour generation), "
                                "harness `hdr` replay on the real headers.Repository, specs/HeaderLocatorTrace.tla"},
             {"name": "blockverify", "path": "lib/prop_c04.py", "serves_properties": ["C04"],
@@ -160,6 +189,10 @@ def main():
              "kind_free_text": "specs/TxManager.tla, TxManagerGen.tla, TxManagerLin.tla, harness `txm` / `txmc`"},
             {"name": "session", "path": "lib/engine_session.py", "serves_properties": ["C13", "C14"],
              "kind_free_text": "specs/PeerSession.tla, PeerSessionGen.tla, harness `sess` (scripted peer over net.Pipe)"},
+            {"name": "split+session", "path": "lib/prop_c03.py", "serves_properties": ["C03"],
+             "kind_free_text": "specs/SplitGuard.tla + harness `spl`; specs/PeerSession*.tla + harness `sess`"},
+            {"name": "hostile", "path": "lib/prop_c15.py", "serves_properties": ["C15"],
+             "kind_free_text": "harness `hostile` (isolated workers) with specs/PeerSession.tla as envelope"},
             {"name": "blockdownload", "path": "lib/prop_c16.py", "serves_properties": ["C16"],
              "kind_free_text": "specs/BlockDownload.tla, BlockDownloadGen.tla, BlockManage.tla, BlockManageTrace.tla, harness `bdl` / `bdn` / `bmg`"},
             {"name": "peerbook", "path": "lib/prop_c20.py", "serves_properties": ["C20"],
